@@ -86,3 +86,102 @@ M("prim-nonstrict", ["~C02", "~C01", "~C05"], SUP,
 M("prim-no-colour-guard", ["~C02"], SUP,
   "                if h.color[q] != c.BLACK:\n                    if p != q:\n                        if self.pre_computed_distance:\n                            weight = self.pre_distances[self.subgraph.nodes[p].idx][",
   "                if True:\n                    if p != q:\n                        if self.pre_computed_distance:\n                            weight = self.pre_distances[self.subgraph.nodes[p].idx][")
+
+# ---------------------------------------------------------------------------
+# clustering (C13, C04)
+# ---------------------------------------------------------------------------
+M("uns-no-colour-guard", ["C13"], UNS,
+  "                if h.color[q] != c.BLACK:\n                    current_cost = np.minimum(h.cost[p], self.subgraph.nodes[q].density)\n\n                    if current_cost > h.cost[q]:",
+  "                if True:\n                    current_cost = np.minimum(h.cost[p], self.subgraph.nodes[q].density)\n\n                    if current_cost > h.cost[q]:")
+M("uns-nonstrict", ["C13"], UNS,
+  "                    if current_cost > h.cost[q]:\n                        self.subgraph.nodes[q].pred = p\n                        self.subgraph.nodes[q].root = self.subgraph.nodes[p].root\n                        self.subgraph.nodes[q].cluster_label",
+  "                    if current_cost >= h.cost[q]:\n                        self.subgraph.nodes[q].pred = p\n                        self.subgraph.nodes[q].root = self.subgraph.nodes[p].root\n                        self.subgraph.nodes[q].cluster_label")
+M("uns-lift-after-cost", ["C13"], UNS,
+  "            if self.subgraph.nodes[p].pred == c.NIL:\n                h.cost[p] = self.subgraph.nodes[p].density\n\n                self.subgraph.nodes[p].cluster_label = l\n                l += 1\n\n            self.subgraph.nodes[p].cost = h.cost[p]\n",
+  "            self.subgraph.nodes[p].cost = h.cost[p]\n\n            if self.subgraph.nodes[p].pred == c.NIL:\n                h.cost[p] = self.subgraph.nodes[p].density\n\n                self.subgraph.nodes[p].cluster_label = l\n                l += 1\n")
+M("uns-max-for-min", ["C13"], UNS,
+  "current_cost = np.minimum(h.cost[p], self.subgraph.nodes[q].density)\n\n                    if current_cost > h.cost[q]:",
+  "current_cost = np.maximum(h.cost[p], self.subgraph.nodes[q].density)\n\n                    if current_cost > h.cost[q]:")
+M("uns-root-not-copied", ["C13"], UNS,
+  "                        self.subgraph.nodes[q].root = self.subgraph.nodes[p].root\n                        self.subgraph.nodes[q].cluster_label",
+  "                        self.subgraph.nodes[q].root = p\n                        self.subgraph.nodes[q].cluster_label")
+M("uns-counter-first", ["C13"], UNS,
+  "                self.subgraph.nodes[p].cluster_label = l\n                l += 1\n",
+  "                l += 1\n                self.subgraph.nodes[p].cluster_label = l\n")
+M("uns-nclusters-off", ["C13"], UNS,
+  "        self.subgraph.n_clusters = l\n", "        self.subgraph.n_clusters = l + 1\n")
+M("uns-density-of-p", ["C13"], UNS,
+  "current_cost = np.minimum(h.cost[p], self.subgraph.nodes[q].density)\n\n                    if current_cost > h.cost[q]:",
+  "current_cost = np.minimum(h.cost[p], self.subgraph.nodes[p].density)\n\n                    if current_cost > h.cost[q]:")
+M("uns-min-heap", ["C13"], UNS,
+  "        h = Heap(size=self.subgraph.n_nodes, policy=\"max\")\n\n        for i in range(self.subgraph.n_nodes):\n            h.cost[i] = self.subgraph.nodes[i].cost\n\n            self.subgraph.nodes[i].pred = c.NIL\n            self.subgraph.nodes[i].root = i\n\n            h.insert(i)\n\n        l = 0",
+  "        h = Heap(size=self.subgraph.n_nodes)\n\n        for i in range(self.subgraph.n_nodes):\n            h.cost[i] = self.subgraph.nodes[i].cost\n\n            self.subgraph.nodes[i].pred = c.NIL\n            self.subgraph.nodes[i].root = i\n\n            h.insert(i)\n\n        l = 0")
+M("uns-propagate-own-label", ["C13"], UNS,
+  "                self.subgraph.nodes[i].predicted_label = self.subgraph.nodes[root].label",
+  "                self.subgraph.nodes[i].predicted_label = self.subgraph.nodes[i].label")
+M("knn-root-label-dropped", ["C13", "C04"], KNN,
+  "                h.cost[p] = self.subgraph.nodes[p].density\n                self.subgraph.nodes[p].predicted_label = self.subgraph.nodes[p].label\n",
+  "                h.cost[p] = self.subgraph.nodes[p].density\n")
+M("knn-label-from-q", ["C13", "C04"], KNN,
+  "                        self.subgraph.nodes[q].predicted_label = self.subgraph.nodes[\n                            p\n                        ].predicted_label",
+  "                        self.subgraph.nodes[q].predicted_label = self.subgraph.nodes[\n                            q\n                        ].label")
+M("knn-seed-root-dropped", ["C13"], KNN,
+  "            self.subgraph.nodes[i].pred = c.NIL\n            self.subgraph.nodes[i].root = i\n\n            h.insert(i)\n\n        while not h.is_empty():",
+  "            self.subgraph.nodes[i].pred = c.NIL\n\n            h.insert(i)\n\n        while not h.is_empty():")
+M("knn-force-dropped", ["C04"], KNN,
+  "        self._clustering(force_prototype=True)", "        self._clustering()")
+M("knn-force-same-label", ["C04"], KNN,
+  "                        if self.subgraph.nodes[p].label != self.subgraph.nodes[q].label:\n                            current_cost = -c.FLOAT_MAX",
+  "                        if self.subgraph.nodes[p].label == self.subgraph.nodes[q].label:\n                            current_cost = -c.FLOAT_MAX")
+M("knn-force-after-accept", ["C04"], KNN,
+  "                    if force_prototype:\n                        if self.subgraph.nodes[p].label != self.subgraph.nodes[q].label:\n                            current_cost = -c.FLOAT_MAX\n\n                    if current_cost > h.cost[q]:",
+  "                    if current_cost > h.cost[q]:")
+M("knn-force-weak-override", ["C04"], KNN,
+  "                            current_cost = -c.FLOAT_MAX\n", "                            current_cost = 0.0\n")
+M("knn-clustering-alias", ["~C13", "~C04"], KNN,
+  "        while not h.is_empty():\n            p = h.remove()\n\n            self.subgraph.idx_nodes.append(p)\n\n            if self.subgraph.nodes[p].pred == c.NIL:\n                h.cost[p] = self.subgraph.nodes[p].density",
+  "        while not h.is_empty():\n            p = h.remove()\n            node_p = self.subgraph.nodes[p]\n\n            self.subgraph.idx_nodes.append(p)\n\n            if node_p.pred == c.NIL:\n                h.cost[p] = node_p.density")
+
+# ---------------------------------------------------------------------------
+# heap (C05; also reported by C01/C02/C13 through their HEAP- premise)
+# ---------------------------------------------------------------------------
+M("heap-up-pos-as-elem", ["C05", "C01"], HEAP,
+  "            while i > 0 and self.cost[self.p[j]] > self.cost[self.p[i]]:",
+  "            while i > 0 and self.cost[j] > self.cost[self.p[i]]:")
+M("heap-up-pos-update-dropped", ["C05", "C13"], HEAP,
+  "                self.pos[self.p[i]] = i\n                self.pos[self.p[j]] = j\n\n                i = j\n                j = self.dad(i)\n\n        else:",
+  "                self.pos[self.p[i]] = i\n\n                i = j\n                j = self.dad(i)\n\n        else:")
+M("heap-down-right-vs-i", ["C05"], HEAP,
+  "            if right <= self.last and self.cost[self.p[right]] < self.cost[self.p[j]]:",
+  "            if right <= self.last and self.cost[self.p[right]] < self.cost[self.p[i]]:")
+M("heap-down-bound-strict", ["C05"], HEAP,
+  "            if left <= self.last and self.cost[self.p[left]] > self.cost[self.p[i]]:",
+  "            if left < self.last and self.cost[self.p[left]] > self.cost[self.p[i]]:")
+M("heap-full-off-by-one", ["C05"], HEAP,
+  "        if self.last == (self.size - 1):", "        if self.last == self.size:")
+M("heap-insert-no-gray", ["C05"], HEAP,
+  "            self.p[self.last] = p\n            self.color[p] = c.GRAY\n", "            self.p[self.last] = p\n")
+M("heap-remove-shrinks-first", ["C05"], HEAP,
+  "            self.p[0] = self.p[self.last]\n\n            self.pos[self.p[0]] = 0\n            self.p[self.last] = -1\n\n            self.last -= 1\n",
+  "            self.last -= 1\n\n            self.p[0] = self.p[self.last]\n\n            self.pos[self.p[0]] = 0\n            self.p[self.last] = -1\n")
+M("heap-update-reinserts-gray", ["C05"], HEAP,
+  "        if self.color[p] == c.WHITE:\n            self.insert(p)", "        if self.color[p] != c.BLACK:\n            self.insert(p)")
+M("heap-dad-wrong", ["C05"], HEAP, "        return int(((i - 1) / 2))", "        return int((i / 2))")
+M("heap-up-stops-early", ["C05"], HEAP,
+  "            while i > 0 and self.cost[self.p[j]] < self.cost[self.p[i]]:",
+  "            while i > 1 and self.cost[self.p[j]] < self.cost[self.p[i]]:")
+M("heap-up-max-direction", ["C05"], HEAP,
+  "            while i > 0 and self.cost[self.p[j]] < self.cost[self.p[i]]:",
+  "            while i > 0 and self.cost[self.p[j]] > self.cost[self.p[i]]:")
+M("heap-remove-returns-new-root", ["C05"], HEAP,
+  "            self.go_down(0)\n\n            return p", "            self.go_down(0)\n\n            return self.p[0]")
+M("heap-down-descends-at-i", ["C05"], HEAP, "            self.go_down(j)", "            self.go_down(i)")
+M("heap-update-cost-after-sift", ["C05"], HEAP,
+  "        self.cost[p] = cost\n\n        if self.color[p] == c.BLACK:\n            pass\n\n        if self.color[p] == c.WHITE:\n            self.insert(p)\n        else:\n            self.go_up(self.pos[p])",
+  "        if self.color[p] == c.WHITE:\n            self.insert(p)\n        else:\n            self.go_up(self.pos[p])\n\n        self.cost[p] = cost")
+M("heap-insert-when-full-overwrites", ["C05"], HEAP,
+  "        if not self.is_full():\n            self.last += 1", "        if True:\n            self.last += 1")
+M("heap-up-nonstrict", ["~C05", "~C01"], HEAP,
+  "            while i > 0 and self.cost[self.p[j]] > self.cost[self.p[i]]:\n                self.p[j], self.p[i] = self.p[i], self.p[j]\n\n                self.pos[self.p[i]] = i\n                self.pos[self.p[j]] = j\n\n                i = j\n                j = self.dad(i)\n\n        else:\n            # While the heap exists and the cost of post-node is smaller than current node\n            while i > 0 and self.cost[self.p[j]] < self.cost[self.p[i]]:",
+  "            while i > 0 and self.cost[self.p[j]] >= self.cost[self.p[i]]:\n                self.p[j], self.p[i] = self.p[i], self.p[j]\n\n                self.pos[self.p[i]] = i\n                self.pos[self.p[j]] = j\n\n                i = j\n                j = self.dad(i)\n\n        else:\n            # While the heap exists and the cost of post-node is smaller than current node\n            while i > 0 and self.cost[self.p[j]] <= self.cost[self.p[i]]:")
+M("heap-dad-floordiv", ["~C05"], HEAP, "        return int(((i - 1) / 2))", "        return (i - 1) // 2")
